@@ -60,7 +60,8 @@ var strategies = []string{
 	"/8:73/54:02",
 }
 
-var costs = []uint64{0, 1, 5, 10, 10, 77, 18446744073709551615}
+// cost 0 is frequent on purpose: it is the default of `nfdc route add` and of the management thread
+var costs0 = []uint64{0, 0, 0, 1, 5, 10, 10, 77, 18446744073709551615}
 
 func gen(g *common.Gen) {
 	// common.NewRand(seed+1) is common.NewRand(seed) advanced by one step, so the batches of the
@@ -99,36 +100,144 @@ func gen(g *common.Gen) {
 			return common.Pick(r, targets)
 		}
 		nops := r.Range(8, 40)
-		type nf struct {
-			n string
+		type fc struct {
 			f int
+			c uint64
 		}
-		var inserted []nf     // (name, face) pairs inserted so far: removals aim at them
+		// generator-side picture of the next hops per name (only used to aim operations)
+		cur := map[string][]fc{}
+		var withHops []string // names that got next hops at some time
+		upsert := func(l []fc, f int, c uint64) []fc {
+			for k := range l {
+				if l[k].f == f {
+					l[k].c = c
+					return l
+				}
+			}
+			return append(l, fc{f, c})
+		}
+		hopsText := func(l []fc) string {
+			if len(l) == 0 {
+				return "-"
+			}
+			p := make([]string, len(l))
+			for k, h := range l {
+				p[k] = fmt.Sprintf("%d:%d", h.f, h.c)
+			}
+			return strings.Join(p, ",")
+		}
+		// a replacement list for a prefix that currently holds c
+		newList := func(c []fc) []fc {
+			var out []fc
+			used := map[int]bool{}
+			fresh := func() int {
+				for t := 0; t < 20; t++ {
+					f := r.Range(1, 6)
+					if !used[f] {
+						return f
+					}
+				}
+				return 7
+			}
+			switch mode := r.Intn(10); {
+			case mode < 5 && len(c) > 0: // same length: keep some hops, re-cost some, swap the others for new faces
+				for _, h := range c {
+					used[h.f] = true
+				}
+				for _, h := range c {
+					switch y := r.Intn(100); {
+					case y < 45:
+						out = append(out, h)
+					case y < 60:
+						out = append(out, fc{h.f, common.Pick(r, costs0)})
+					default:
+						f := fresh()
+						used[f] = true
+						out = append(out, fc{f, common.Pick(r, costs0)})
+					}
+				}
+				g.Stat("rep-same-length")
+			case mode == 5 && len(c) > 0: // unchanged set, rotated
+				k := r.Intn(len(c))
+				out = append(append(out, c[k:]...), c[:k]...)
+				g.Stat("rep-unchanged")
+			case mode == 6:
+				g.Stat("rep-empty")
+			case mode == 9: // a face listed twice: the later cost wins
+				f := r.Range(1, 4)
+				out = []fc{{f, common.Pick(r, costs0)}, {fresh(), 5}, {f, common.Pick(r, costs0)}}
+				g.Stat("rep-duplicate-face")
+			default:
+				for k := r.Range(1, 3); k > 0; k-- {
+					f := fresh()
+					used[f] = true
+					out = append(out, fc{f, common.Pick(r, costs0)})
+				}
+				g.Stat("rep-random")
+			}
+			return out
+		}
 		var stratSet []string // non-root names a strategy was set on
 		for k := 0; k < nops; k++ {
 			n := pick()
 			x := r.Intn(100)
 			switch {
-			case x < 38:
-				f := r.Range(1, 4)
-				g.Op("ins %s %d %d", n, f, common.Pick(r, costs))
-				inserted = append(inserted, nf{n, f})
+			case x < 32:
+				f, c := r.Range(1, 4), common.Pick(r, costs0)
+				g.Op("ins %s %d %d", n, f, c)
+				cur[n] = upsert(cur[n], f, c)
+				withHops = append(withHops, n)
 				g.Stat("op-ins")
-			case x < 60:
+			case x < 50:
 				f := r.Range(1, 4)
-				if len(inserted) > 0 && r.Chance(7, 10) {
-					e := common.Pick(r, inserted)
-					n, f = e.n, e.f
+				if len(withHops) > 0 && r.Chance(7, 10) {
+					n = common.Pick(r, withHops)
+					if l := cur[n]; len(l) > 0 {
+						f = common.Pick(r, l).f
+					}
 				}
 				g.Op("rem %s %d", n, f)
+				kept := cur[n][:0:0]
+				for _, h := range cur[n] {
+					if h.f != f {
+						kept = append(kept, h)
+					}
+				}
+				cur[n] = kept
 				g.Stat("op-rem")
-			case x < 68:
-				if len(inserted) > 0 && r.Chance(6, 10) {
-					n = common.Pick(r, inserted).n
+			case x < 56:
+				if len(withHops) > 0 && r.Chance(6, 10) {
+					n = common.Pick(r, withHops)
 				}
 				g.Op("clr %s", n)
+				delete(cur, n)
 				g.Stat("op-clr")
-			case x < 86:
+			case x < 72: // ReplaceNextHopsEnc, one prefix or a batch
+				cnt := 1
+				if r.Chance(1, 5) {
+					cnt = r.Range(2, 3)
+				}
+				var parts []string
+				for ; cnt > 0; cnt-- {
+					if len(withHops) > 0 && r.Chance(7, 10) {
+						n = common.Pick(r, withHops)
+					} else {
+						n = pick()
+					}
+					l := newList(cur[n])
+					parts = append(parts, n+"="+hopsText(l))
+					var col []fc
+					for _, h := range l {
+						col = upsert(col, h.f, h.c)
+					}
+					cur[n] = col
+					if len(col) > 0 {
+						withHops = append(withHops, n)
+					}
+				}
+				g.Op("rep %s", strings.Join(parts, ";"))
+				g.Stat("op-rep")
+			case x < 88:
 				g.Op("sets %s %s", n, common.Pick(r, strategies))
 				if n != "/" {
 					stratSet = append(stratSet, n)
@@ -338,6 +447,22 @@ func exec(op string) string {
 		return each(func(t table.FibStrategy) { t.RemoveNextHopEnc(common.ParseNameText(n), face) })
 	case "clr":
 		return each(func(t table.FibStrategy) { t.ClearNextHopsEnc(common.ParseNameText(f[1])) })
+	case "rep": // <name>=<f:c,f:c|->;<name>=…  one ReplaceNextHopsEnc call
+		return each(func(t table.FibStrategy) {
+			var ups []table.FibNextHopsUpdate
+			for _, part := range strings.Split(f[1], ";") {
+				kv := strings.SplitN(part, "=", 2)
+				up := table.FibNextHopsUpdate{Name: common.ParseNameText(kv[0])}
+				if kv[1] != "-" {
+					for _, h := range strings.Split(kv[1], ",") {
+						fcs := strings.SplitN(h, ":", 2)
+						up.NextHops = append(up.NextHops, table.FibNextHopEntry{Nexthop: common.Atou(fcs[0]), Cost: common.Atou(fcs[1])})
+					}
+				}
+				ups = append(ups, up)
+			}
+			t.ReplaceNextHopsEnc(ups)
+		})
 	case "sets":
 		return each(func(t table.FibStrategy) { t.SetStrategyEnc(common.ParseNameText(f[1]), common.ParseNameText(f[2])) })
 	case "unsets":
